@@ -12,8 +12,13 @@ use sway_ir::{
 use sway_types::SourceEngine;
 
 pub fn experimental() -> ExperimentalFeatures {
-    // same setting as sway-ir/tests/tests.rs
-    ExperimentalFeatures { new_encoding: false, ..Default::default() }
+    // default: the setting of sway-ir/tests/tests.rs (new_encoding off). With HX_NEW_ENCODING=1 the
+    // ExperimentalFeatures default (new_encoding on), i.e. what a normal forc build uses.
+    if std::env::var("HX_NEW_ENCODING").map(|v| v == "1").unwrap_or(false) {
+        ExperimentalFeatures::default()
+    } else {
+        ExperimentalFeatures { new_encoding: false, ..Default::default() }
+    }
 }
 
 pub fn parse_ir<'e>(text: &str, se: &'e SourceEngine) -> Result<Context<'e>, IrError> {
